@@ -116,9 +116,10 @@ example : Proofs.C14X.WFNode (.mk "r".toList [("k".toList, "v".toList)] (some "t
 example : Xml.groupChildren [("a".toList, 0), ("b".toList, 1), ("a".toList, 2), ("b".toList, 3)]
     = [("a".toList, [(0, 0), (2, 2)]), ("b".toList, [(1, 1), (3, 3)])] := by decide
 /- Without `#seq` to_xml sorts the children by name (`Xml.sortByName`), so the document order of
-   interleaved names is lost by design ("otherwise order might be lost", xml.md); and because that
-   sort is sort.Sort on a random map order, even the relative order of same-named children is
-   lost for more than 12 children — known finding xml-object-unstable-name-sort. -/
+   interleaved names is lost by design ("otherwise order might be lost", xml.md); the sort is stable
+   since /repo 2017971e, so the order of same-named children is kept — required (no excuse) by the
+   monitored law `xmlobj`; before, sort.Sort on a random map order scrambled them for more than 12
+   children (former known finding xml-object-unstable-name-sort). -/
 
 /-! ## CSV (stretch): `to_csv | from_csv` as fq configures encoding/csv (format/csv/csv.go: Comment '#',
     LazyQuotes, TrimLeadingSpace; Writer quoting).  `TableOK rows`: every row has at least one
